@@ -224,3 +224,7 @@ func (r *VerifRig) PeerState(p peer.ID) (state, hits, misses, seqFail int, known
 	}
 	return int(rec.state), rec.hits, rec.misses, rec.sequentialFailures, true
 }
+
+// VerifHitMissWindow is the size of the peer tracker's hit/miss sliding window.
+const VerifHitMissWindow = hitMissSlidingWindow
+
